@@ -1,7 +1,7 @@
 // C32: span fragmentation preserves coverage exactly.
 //
 // Every sequence of <= 3 (quick) / <= 4 (thorough) input spans over the six intervals [x,y), x<y in
-// {a,b,c,d}, each carrying one of 7 key sets (1-2 keys; distinct and deliberately colliding
+// {a,b,c,d}, each carrying one of 8 key sets (1-2 keys; distinct and deliberately colliding
 // (seqnum, kind, suffix, value) tuples), in every Add order the Fragmenter contract allows
 // (non-decreasing start key), is pushed through the real keyspan.Fragmenter, keyspan.Iter,
 // keyspan.Truncate, keyspanimpl.MergingIter (inputs distributed over <= 3 levels),
@@ -62,7 +62,11 @@ const (
 	kDel   = base.InternalKeyKindRangeKeyDelete
 )
 
-// The distinct keys. Two keys never agree on (seqnum, kind, suffix, value).
+// The distinct keys. Two keys never agree on (seqnum, kind, suffix, value). Key 9 agrees with key 0 on
+// (seqnum, kind, suffix) and differs in the VALUE only - what two range keys of one ingested table
+// look like (all keys of an ingested table share its sequence number). Cases in which keys 0 and 9
+// cover a common interval are skipped (which of the two shadows the other is undefined); abutting
+// fragments carrying them must never be joined.
 var keyDefs = []kdef{
 	0: {5, kSet, "@1", "v1"},
 	1: {3, kSet, "@1", "v0"},
@@ -73,13 +77,14 @@ var keyDefs = []kdef{
 	6: {2, kSet, "@2", "w"},
 	7: {8, kSet, "@1", "v1"},
 	8: {8, kSet, "@3", "u"},
+	9: {5, kSet, "@1", "v0"},
 }
 
 // The key-set menu of an input span, simplest first. Keys inside an entry are in trailer-descending
 // order (Fragmenter.Add requires it). Entries 0 and 5 share a key (so that two spans can carry an
 // identical key: physical fragmentation), entries 4 and 6 have two keys, entry 6 has two keys with
 // the same trailer.
-var menu = [][]int{{0}, {1}, {2}, {3}, {4, 5}, {0, 6}, {7, 8}}
+var menu = [][]int{{0}, {1}, {2}, {3}, {4, 5}, {0, 6}, {7, 8}, {9}}
 
 var menuCode []uint64
 var keyTrailer []base.InternalKeyTrailer
@@ -882,6 +887,12 @@ func (r *caseRun) run() {
 		}
 	}
 	full := r.expCov
+	for e := 0; e < 3; e++ {
+		if full[e]&0xf != 0 && (full[e]>>(4*9))&0xf != 0 {
+			r.outcomes["skipped: same (seqnum, kind, suffix) with different values over one interval (undefined)"]++
+			return
+		}
+	}
 	if r.verbose {
 		fmt.Printf("inputs: %s\n", caseText(r.spans))
 		for e := 0; e < 3; e++ {
